@@ -298,6 +298,11 @@ static void lookup_boundary_keys(void) {
   del(tree); del(table);
 }
 
+static const char* PFX_NAMES[] = { "I", "In", "Interval", "Integer", "Int2", "Floa", "Floats", "Plai", "PlainX", "Plain3D", "Odd_", "O",
+                                    "Tre", "Trees", "a", "ab", "aba", "abab", "b", "ba", "T", "Ty", "Types" };
+#define NPFX ((int)(sizeof PFX_NAMES / sizeof PFX_NAMES[0]))
+static var PFX[NPFX];
+
 static void fixed(void) {
   /* Int grid: all pairs, all triples */
   for (int i = 0; i < nigrid; i++) {
@@ -321,14 +326,18 @@ static void fixed(void) {
   /* String grid */
   for (int i = 0; i < NSGRID; i++) { for (int j = 0; j < NSGRID; j++) { string_pair(SGRID[i], SGRID[j], (i + j) % 3 == 0); vh_count("string_grid_pairs"); } }
   /* Type objects: name order */
-  var types[] = { Int, Float, String, Array, List, Table, Tree, Tuple, Ref, Box, Type, KeyError, IOError, Range, Slice, Zip,
+  var types[80] = { Int, Float, String, Array, List, Table, Tree, Tuple, Ref, Box, Type, KeyError, IOError, Range, Slice, Zip,
                   Filter, Map, File, Mutex, Thread, Function, Exception, Cmp, Hash, Len, Iter, Plain, Odd };
-  int nt = (int)(sizeof types / sizeof types[0]);
+  int nt = 29;
+  /* run-time types whose names are proper prefixes and extensions of each other and of built-in names */
+  for (int i = 0; i < NPFX; i++) { types[nt++] = PFX[i]; }
   for (int i = 0; i < nt; i++) { for (int j = 0; j < nt; j++) {
     char d[120];
     snprintf(d, sizeof d, "Type %s vs %s", c_str(types[i]), c_str(types[j]));
     check_pair("type", types[i], types[j], sgn(strcmp(c_str(types[i]), c_str(types[j]))), d);
     vh_count("type_pairs");
+    size_t li = strlen(c_str(types[i])), lj = strlen(c_str(types[j]));
+    if (li != lj && strncmp(c_str(types[i]), c_str(types[j]), li < lj ? li : lj) == 0) { vh_count("type_pairs_one_name_a_prefix_of_the_other"); }
   } }
   lookup_boundary_keys();
 }
@@ -378,6 +387,16 @@ static void case_random(vh_rng* r, long index) {
     check_triple("string", $S(x), $S(y), $S(z), d);
     if (n == 0) { vh_op("str %s | %s | %s", ex, ey, ez); }
     for (char* p = x; *p; p++) { if ((unsigned char)*p >= 128) { vh_count("strings_with_high_bytes"); break; } }
+  }
+  /* type objects with related names, also as members of sequences (element-wise comparison reaches Type's cmp) */
+  for (int n = 0; n < 6; n++) {
+    var a = PFX[vh_below(r, NPFX)], b = PFX[vh_below(r, NPFX)], c = PFX[vh_below(r, NPFX)];
+    char d[160];
+    snprintf(d, sizeof d, "Type %s, %s, %s", c_str(a), c_str(b), c_str(c));
+    check_triple("type", a, b, c, d);
+    snprintf(d, sizeof d, "tuple(Int, %s) vs tuple(Int, %s)", c_str(a), c_str(b));
+    check_pair("type", tuple(Int, a), tuple(Int, b), sgn(strcmp(c_str(a), c_str(b))), d);
+    vh_count("type_triples_with_related_names");
   }
   /* plain structs: byte-wise */
   for (int n = 0; n < 10; n++) {
@@ -430,6 +449,7 @@ static void case_random(vh_rng* r, long index) {
 int main(int argc, char** argv) {
   Plain = new_root(Type, $S("Plain"), $I(sizeof(struct Plain)));
   Odd = new_root(Type, $S("Odd"), $I(sizeof(struct Odd)));
+  for (int i = 0; i < NPFX; i++) { PFX[i] = new_root(Type, $S((char*)PFX_NAMES[i]), $I(8 + 8 * (i % 3))); }
   build_int_grid();
   build_float_grid();
   /* observe the Tree iteration direction once (C03 checks that it is monotone) */
